@@ -47,13 +47,13 @@ func writeOverlay(files []harnessFile, pkgRel string, harnessNames []string) str
 	pkgName := packageNameOf(files, pkgRel)
 	var sb strings.Builder
 	fmt.Fprintf(&sb, "package %s\n\nimport (\n\t\"fmt\"\n\t\"testing\"\n\n\t\"%s/zzverif\"\n)\n\n", pkgName, modPath)
-	sb.WriteString("func TestVerifReplay(t *testing.T) {\n\tname := zzverif.Load()\n\tfns := map[string]func(){\n")
+	sb.WriteString("func TestVerifReplay(t *testing.T) {\n\tfns := map[string]func(){\n")
 	sort.Strings(harnessNames)
 	for _, n := range harnessNames {
 		fmt.Fprintf(&sb, "\t\t%q: %s,\n", n, n)
 	}
-	sb.WriteString("\t}\n\tfn := fns[name]\n\tif fn == nil {\n\t\tt.Fatalf(\"unknown harness %s\", name)\n\t}\n")
-	sb.WriteString("\toutcome, detail := zzverif.Run(fn)\n\tfmt.Printf(\"VERIF-OUTCOME %s %s\\n\", outcome, detail)\n}\n")
+	sb.WriteString("\t}\n\tfor k, path := range zzverif.ReplayPaths() {\n\t\tname := zzverif.LoadPath(path)\n\t\tfn := fns[name]\n\t\tif fn == nil {\n\t\t\tt.Fatalf(\"unknown harness %s\", name)\n\t\t}\n")
+	sb.WriteString("\t\toutcome, detail := zzverif.Run(fn)\n\t\tfmt.Printf(\"VERIF-OUTCOME-%d %s %s\\n\", k, outcome, detail)\n\t\tif k == 0 {\n\t\t\tfmt.Printf(\"VERIF-OUTCOME %s %s\\n\", outcome, detail)\n\t\t}\n\t}\n}\n")
 	// native self-tests of harness-side models (contract cuts)
 	sb.WriteString("\nfunc TestVerifSelf(t *testing.T) {\n\tfor name, fn := range map[string]func() string{\n")
 	for _, n := range selfNames {
@@ -147,6 +147,48 @@ func runNative(files []harnessFile, pkgRel string, names []string, replayPath st
 		return "error", o
 	}
 	return "error", "no outcome line"
+}
+
+// runNativeMany replays several stored paths of one package's harnesses in
+// one native test run and returns the outcome of each ("outcome detail").
+func runNativeMany(files []harnessFile, pkgRel string, names []string, paths []string) []string {
+	replayMu.Lock()
+	defer replayMu.Unlock()
+	ov := writeOverlay(files, pkgRel, names)
+	ctx, cancel := context.WithTimeout(context.Background(), 400*time.Second)
+	defer cancel()
+	args := []string{"test", "-v", "-vet=off", "-count=1", "-timeout", "300s", "-overlay", ov, "-run", "^TestVerifReplay$", "./" + pkgRel}
+	cmd := exec.CommandContext(ctx, "go", args...)
+	cmd.Dir = repoDir
+	cmd.Env = append(os.Environ(), "GOFLAGS=-mod=mod", "GOPROXY=off", "GOSUMDB=off", "GOTOOLCHAIN=local", "TZ=UTC", "VERIF_REPLAY="+strings.Join(paths, string(os.PathListSeparator)))
+	var out bytes.Buffer
+	cmd.Stdout = &out
+	cmd.Stderr = &out
+	cmd.Run()
+	o := out.String()
+	if os.Getenv("GOSYM_REPLAY_VERBOSE") != "" {
+		fmt.Fprintln(os.Stderr, o)
+	}
+	res := make([]string, len(paths))
+	for k := range res {
+		res[k] = "error no outcome line"
+		pre := fmt.Sprintf("VERIF-OUTCOME-%d ", k)
+		for _, l := range strings.Split(o, "\n") {
+			if strings.HasPrefix(l, pre) {
+				res[k] = strings.TrimSpace(strings.TrimPrefix(l, pre))
+			}
+		}
+	}
+	// an uncaught crash (fatal error, os.Exit) ends the run: attribute it to the first path without an outcome
+	for k := range res {
+		if res[k] == "error no outcome line" {
+			if l := firstLineWith(o, "panic:", "fatal error:", "[build failed]", "cannot"); l != "" {
+				res[k] = "error " + l
+			}
+			break
+		}
+	}
+	return res
 }
 
 func firstLineWith(o string, keys ...string) string {
